@@ -1,4 +1,9 @@
+#[cfg(not(kani))]
 use std::collections::{HashMap, VecDeque};
+#[cfg(kani)]
+use crate::verif_collections::HashMap;
+#[cfg(kani)]
+use std::collections::VecDeque;
 use std::fmt;
 use std::hash::Hash;
 use std::ops::Deref;
@@ -416,3 +421,7 @@ mod tests {
         }
     }
 }
+
+#[cfg(kani)]
+#[path = "/verif/harness/teos/tx_index.rs"]
+mod verif_harness;
